@@ -285,6 +285,9 @@ func c18Gen(rng *rand.Rand, tier string) []Case {
 	}
 	emit := func(seq []sym, tag string) {
 		for mask := 0; mask < 1<<uint(len(seq)); mask++ {
+			if tag == "exhaustive-coalescable-len4" && mask != 0 && mask != 1 && mask != 5 && mask != 6 && mask != 8 && mask != 10 {
+				continue // quick tier: six of the sixteen flush placements for the length-4 sequences
+			}
 			var ops []string
 			tie := false
 			seen := map[string]int{}
@@ -418,7 +421,7 @@ func c18Gen(rng *rand.Rand, tier string) []Case {
 func init() {
 	register(&Prop{
 		ID: "C18",
-		Rule: "direct coalescer: exhaustive — every sequence of ≤3 user events over 2 names × times {0,1,2} × coalesce flag (thorough: ≤4; quick adds all length-4 sequences of coalescable events) with a flush at every subset of positions; " +
+		Rule: "direct coalescer: exhaustive — every sequence of ≤3 user events over 2 names × times {0,1,2} × coalesce flag (thorough: ≤4) with a flush at every subset of positions (quick adds all length-4 sequences of coalescable events with 6 of the 16 flush placements); " +
 			"random sequences over 6 names (incl. empty, separators) × 8 times (incl. 0, 2^64-1) × flag, with other-kind events; " +
 			"real coalesceLoop goroutine: hour-long timers, every unhandled event must come out before the next is sent, flush by shutdown; short quantum / quiescent timers, flush by timer judged by the monitor for some placement of flush points. " +
 			"non-trivial = a flush follows ≥2 coalescable events that tie or differ in name/time (direct), an unhandled event is sent while coalesced events are pending (loop), any timer case; distinct = distinct op sequence",
